@@ -14,6 +14,7 @@ type c07Text struct {
 	Joints []string `json:"joints"` // between word i and i+1: " ", "  ", `\n`, ` \n `, `\l`, `\p`, `\N`, "\n" (a raw newline)
 	HasDefault bool `json:"default_width_entry"`
 	FontKind   string `json:"font"` // "table" | "TEST" | "unknown"
+	Trail      string `json:"trailing,omitempty"` // blanks / a raw newline after the last word
 }
 
 func (t *c07Text) source() string {
@@ -24,6 +25,7 @@ func (t *c07Text) source() string {
 			sb.WriteString(t.Joints[i])
 		}
 	}
+	sb.WriteString(t.Trail)
 	return sb.String()
 }
 
@@ -620,6 +622,27 @@ func RunC07(env *Env, rep *Report) {
 		texts = append(texts, &c)
 	}
 	texts = append(texts, &c07Text{Words: []string{"a", "bb"}, Joints: []string{" "}, FontKind: "unknown"})
+	// trailing blanks / a trailing raw newline: nothing follows the last word,
+	// so no prompt is shown after it
+	for _, t := range c07Texts(3, []string{"a", "bb"}, []string{" ", `\N`}) {
+		for _, tr := range []string{" ", "  ", "\n"} {
+			c := *t
+			c.Trail = tr
+			texts = append(texts, &c)
+		}
+	}
+	// an unmatched '}' is an ordinary character
+	for _, t := range c07Texts(3, []string{"}", "a", "}b"}, []string{" ", `\p`}) {
+		hasBrace := false
+		for _, w := range t.Words {
+			if strings.Contains(w, "}") {
+				hasBrace = true
+			}
+		}
+		if hasBrace {
+			texts = append(texts, t)
+		}
+	}
 	// one FontConfig, two fonts: the same text (with control codes) formatted
 	// under font f1 first must not influence its formatting under font f2
 	for _, t := range c07Texts(3, []string{"{P}a", "b", "{P}{Q}"}, []string{" ", `\N`}) {
@@ -635,7 +658,7 @@ func RunC07(env *Env, rep *Report) {
 	rep.Technique = "symbolic execution of the real FormatText (go/ssa) with a symbolic font table, box width, cursor overlap and numLines; every layout is a path with a linear-arithmetic path condition; fit / did-not-fit assertions are validity queries over the integers (z3 LIA)"
 	rep.Explanation = "Bounded symbolic verification, not a proof. For every text skeleton within the bound (words over a small alphabet incl. a multi-byte letter and a {control code}, joined by one or two spaces, a raw newline, or an explicit \\n \\l \\p \\N with or without surrounding spaces) the real FormatText is executed symbolically with the width of every character, of the space and of the control code, the default-width entry, maxLineLength, cursorOverlapWidth>=0 and numLines in 1..4 all symbolic integers. Each feasible path is one layout; its path condition is the set of fit/overflow comparisons the code made. Asserted per path, as validity queries under the path condition: (a) words and explicit breaks are preserved in order, single spaces inside lines; (b) every line of two or more words fits maxLineLength including the cursor overlap when the continue-prompt is shown (a line followed by more text that is on the last row of the box or ends at \\p); (c) at every inserted break the next word did not fit (same overlap rule); (d) inserted breaks and \\N are \\n before the last row and \\l on it, \\p restarts the rows. A sat answer yields a concrete font table and box for which the assertion fails; it is replayed on the native FormatText with the same oracle."
 	rep.Bounds = map[string]interface{}{"texts": len(texts), "word_alphabet": words, "joints": joints, "max_words": maxWords, "longer_texts": map[string]interface{}{"max_words": extraMax, "words": extraWords, "joints": extraJoints}, "numLines": "1..4", "widths": "0..100000"}
-	rep.Outside = []string{"texts outside the skeleton alphabet / longer texts", "leading or trailing separators and several break codes in a row"}
+	rep.Outside = []string{"texts outside the skeleton alphabet / longer texts", "leading separators, trailing break codes and several break codes in a row"}
 	rep.Explanation += " Second harness: format(text, params) with positional, named and mixed parameters (numbers symbolic, CLI default font/line length and both fonts' config entries symbolic) is parsed by symbolic execution of the real parseFormatStringOperator with FormatText intercepted; its five arguments must equal, for all integer values, the documented precedence (explicit > CLI > font config; values <= 0 fall back)."
 	rep.Assumptions = []string{"prompt-line reading of DESIGN.md §6 C07 (the code's own comment at formattext.go:98)", "widths are non-negative"}
 	rep.Functions = []string{"FormatText", "getNextWord", "isLineBreak", "isAutoLineBreak", "isParagraphBreak", "shouldUseLineFeed", "getWordPixelWidth", "processControlCodes", "getRunePixelWidth", "getControlCodePixelWidth", "getWidth", "isFontIDValid", "parseFormatStringOperator"}
